@@ -10,6 +10,7 @@ out: {"traces":[{"id","kind","events":[..]}], "stats":{..}}
 """
 import json
 import random
+import signal
 import sys
 import types
 
@@ -183,14 +184,53 @@ class Build(object):
         sys.modules.pop(self.modname, None)
 
 
-def guarded(f):
-    """(exception name or "", result)"""
+class Hang(BaseException):
+    """raised by the watchdog inside a call that does not come back (not an Exception: dr's own
+    `defaults` wrappers swallow those)"""
+
+
+def _alarm(signum, frame):
+    raise Hang()
+
+
+def guarded(f, limit=20.0):
+    """(exception name or "", result); a call that does not return within `limit` seconds is recorded as Hang"""
+    signal.signal(signal.SIGALRM, _alarm)
+    signal.setitimer(signal.ITIMER_REAL, limit)
     try:
         return "", f()
     except RecursionError:
         return "RecursionError", None
+    except Hang:
+        return "Hang", None
     except Exception as ex:     # noqa
         return excname(ex), None
+    finally:
+        signal.setitimer(signal.ITIMER_REAL, 0)
+
+
+def declared_cyclic(prog, adds):
+    """does the registration as DECLARED (decorators + the add_dependency calls made so far) contain a cycle?
+    dr's recursive walks do not come back on one (their depth-limit errors are swallowed by its `defaults`
+    wrappers and the walk goes on over every path), so those questions are not asked then: input selection,
+    the specification demands nothing there either"""
+    n = len(prog)
+    edges = dict((c + 1, set(d for it in p["decl"] for d in it["ds"])) for c, p in enumerate(prog))
+    for c, d in adds:
+        edges[c].add(d)
+    state = {}
+
+    def visit(x):
+        if state.get(x) == 1:
+            return True
+        if state.get(x) == 2:
+            return False
+        state[x] = 1
+        if any(visit(y) for y in edges[x]):
+            return True
+        state[x] = 2
+        return False
+    return any(visit(x) for x in range(1, n + 1))
 
 
 class Stranger(object):
@@ -378,35 +418,43 @@ def run_prog_case(case, rng, stats):
         bump(stats, "q:" + q["t"])
         if case["adds"]:
             bump(stats, "with-adds")
+        cyclic = declared_cyclic(case["prog"], case["adds"])
+        if cyclic:
+            bump(stats, "cyclic-registration")
         if basic:
             for c in ids:
                 evs.append(ev_name(b, c))
-                evs.append(ev_dgraph(b, na, c))
-                evs.append(ev_tree(b, na, c, "deps"))
-                evs.append(ev_tree(b, na, c, "dents"))
-                evs.append(ev_rps(b, na, c))
-                evs.append(ev_detc(b, na, "single", [c]))
-            evs.append(ev_detc(b, na, "list", shuffled(rng, ids)))
+                if not cyclic:
+                    evs.append(ev_dgraph(b, na, c))
+                    evs.append(ev_tree(b, na, c, "deps"))
+                    evs.append(ev_tree(b, na, c, "dents"))
+                    evs.append(ev_rps(b, na, c))
+                    evs.append(ev_detc(b, na, "single", [c]))
             some = [c for c in ids if rng.random() < 0.5] or ids[-1:]
-            evs.append(ev_detc(b, na, "set", some))
-            evs.append(ev_detc(b, na, "list", shuffled(rng, some)))
+            if not cyclic:
+                evs.append(ev_detc(b, na, "list", shuffled(rng, ids)))
+                evs.append(ev_detc(b, na, "set", some))
+                evs.append(ev_detc(b, na, "list", shuffled(rng, some)))
+                for ty in ("base", "sub"):
+                    evs.append(ev_detc(b, na, "type", tag=ty))
             evs.append(ev_detc(b, na, "dict", some))
-            for ty in ("base", "sub"):
-                evs.append(ev_detc(b, na, "type", tag=ty))
             for g in (1, 2):
                 evs.append(ev_detc(b, na, "group", tag=g))
             evs.append(ev_stranger(b))
         elif q["t"] == "sub":
-            evs.append(ev_subg(b, na, shuffled(rng, q["K"])))
-            evs.append(ev_subg(b, na, shuffled(rng, q["K"])))
-            evs.extend(ev_rps(b, na, c) for c in q["K"])
+            if not cyclic:
+                evs.append(ev_subg(b, na, shuffled(rng, q["K"])))
+                evs.append(ev_subg(b, na, shuffled(rng, q["K"])))
+                evs.extend(ev_rps(b, na, c) for c in q["K"])
         elif q["t"] == "topo":
             evs.append(ev_order(b, na, shuffled(rng, q["K"])))
-            evs.append(ev_detc(b, na, "list", shuffled(rng, q["K"])))
+            if not cyclic:
+                evs.append(ev_detc(b, na, "list", shuffled(rng, q["K"])))
             evs.extend(ev_deps(b, na, c) for c in q["K"])      # run_order got live-looking sets: the registry afterwards
         elif q["t"] == "walk":
-            evs.append(ev_walk(b, na, q["root"]))
-            evs.append(ev_dgraph(b, na, q["root"]))
+            if not cyclic:
+                evs.append(ev_walk(b, na, q["root"]))
+                evs.append(ev_dgraph(b, na, q["root"]))
         elif q["t"] == "help":
             evs.append(ev_help(b, q["root"], q["pres"]))
     finally:
@@ -466,7 +514,6 @@ def main():
         payload = json.load(f)
     seed = payload.get("seed", 0)
     nvar = payload.get("nvar", 1)
-    sys.setrecursionlimit(600)      # cyclic registrations end in RecursionError sooner
     stats = {}
     traces = []
     for c in payload.get("cases", []):
